@@ -6,7 +6,7 @@ set -e
 cd "$(dirname "$0")"
 V=.venv312
 if [ -x "$V/bin/python" ] && "$V/bin/python" -c "import z3, tenpy, numpy, jsonschema" 2>/dev/null; then
-    echo "setup: $V ok"; exit 0
+    echo "setup: $V ok"; "$V/bin/python" -m vcheck.overlay; exit 0
 fi
 rm -rf "$V"
 /venv/bin/python -m venv --without-pip "$V" 2>/dev/null || /venv/bin/python -m venv "$V"
@@ -17,3 +17,5 @@ PIP_NO_INDEX=1 "$V/bin/python" -m pip install --no-index --find-links /opt/verif
     typing_extensions hypothesis sortedcontainers crosshair-tool typeshed_client typing_inspect mypy_extensions \
     importlib_metadata zipp packaging pygls lsprotocol cattrs >/dev/null
 "$V/bin/python" -c "import z3, tenpy, numpy, jsonschema; print('setup: built', z3.get_version_string())"
+# compiled extension rebuilt from the current _npc_helper.pyx (cached by content hash under .cache/)
+"$V/bin/python" -m vcheck.overlay
